@@ -101,6 +101,7 @@ class TreeGen:
         rng, o = self.rng, self.o
         out: list[Node] = []
         for _ in range(rng.randint(1, o["max_width"])):
+            snapshot = list(self.counters_available)
             base = self.member(level, depth, in_occurs)
             # OCCURS
             occ_here = False
@@ -110,13 +111,14 @@ class TreeGen:
                 self.features.add("occurs-group" if base.is_group else "occurs-elem")
                 if base.is_group and in_occurs:
                     self.features.add("nested-occurs")
-            elif (o["odo"] and self.counters_available and rng.random() < 0.5 and not in_occurs):
+            elif (o["odo"] and snapshot and rng.random() < 0.5 and not in_occurs):
                 lo, hi = rng.choice([(0, 3), (1, 4), (0, 5), (2, 2), (1, 9)])
-                base.odo = (lo, hi, rng.choice(self.counters_available))
+                base.odo = (lo, hi, rng.choice(snapshot))
                 occ_here = True
                 self.features.add("odo-group" if base.is_group else "odo-elem")
             if base.is_group and occ_here:
                 # regenerate children knowing they sit inside a repeated group
+                self.counters_available = snapshot
                 base.children = self.members(base.children[0].level if base.children else level + 5, depth + 1, True)
             out.append(base)
             if o["odo"] and not base.is_group and not occ_here and base.name not in (None, "FILLER") and not in_occurs \
@@ -128,7 +130,7 @@ class TreeGen:
                     base.pic, base.usage, base.width = "9(4)", "COMP", 2
                 self.counters_available.append(base.name)  # type: ignore[arg-type]
             # REDEFINES of the item just emitted
-            may_redefine = (o["redefines"] and base.name not in (None, "FILLER") and base.odo is None
+            may_redefine = (o["redefines"] and base.name not in (None, "FILLER") and not any(x.odo for x in preorder(base))
                             and (not in_occurs or o["redefines_in_occurs"])
                             and (base.is_group or base.occurs is None or o["elem_occurs_redefines"]))
             if may_redefine and rng.random() < 0.3:
